@@ -16,7 +16,7 @@ FIX = {
     "C06-m1": "derived values with a leading zero byte, found by search at generation time (builder-certs)",
     "C08-m2": "files that ship an element named like the root word / a foreign root under several names (builder-attest; C07/C16: builder-certs)",
     "C09-m1": "versions with multi-digit components (5.4.10, 5.4.100, 5.10.0, 5.3.200 ...): orders that differ between numbers, strings and decimal fractions",
-    "C09-m2": "caught by the sibling C10: the client of the request that meets the reconnection is reset / gone when the reply is written (the shutdown decision must survive)",
+    "C09-m2": "C09 relink scenario (the bring-up repeated in mid-life with an obstacle) and C10: the client of the request that meets the reconnection is reset / gone when the reply is written (the shutdown decision must survive)",
     "C10-m1": "randomness sources kept as class attributes are owned too; after a digits-only draw every continuation of two more draws",
     "C11-m1": "the device comes back LOCKED: the repair is the long bring-up through the bootloader, each of its exchanges failing in turn",
     "C11-m2": "the managers' -D/--iodebug option on the dongle object",
@@ -28,6 +28,8 @@ FIX = {
     "C15-m1": "the SGX device model encodes DER as the firmware's der_utils.c does; genuine devices with each r/s shape (builder-attest)",
     "C15-m2": "algebraic alterations of signatures: (r, N-s), (N-r, s), (s, r), superfluous leading zero (builder-attest)",
     "C16-m1": "names with non-ASCII / astral / lone-surrogate characters, save and load through real files also under an ASCII locale (builder-certs)",
+    "C19-m1": "signatures of one run compared with each other: equal r between two signatures means the one-time key is recoverable; it is recovered and checked against the public key (builder-admin)",
+    "C19-m2": "area lengths at k*B-1, k*B, k*B+1 for the block sizes of the code base and its libraries (224 = ledgerblue's loader chunk among them), sweep of every length 1..600 (builder-admin)",
     "C18-m1": "every admin command also with -v/--verbose (debug dongle) (builder-admin)",
     "C18-m2": "PINs with a trailing line feed on the command line, short forms under --anypin (builder-admin)",
 }
